@@ -233,6 +233,8 @@ def main(argv=None):
         os.execve(sys.executable, [sys.executable, "-B", os.path.join(VERIF, "check")] + (argv or sys.argv[1:]), env)
     if args.workers:
         os.environ["WDMC_WORKERS"] = str(args.workers)
+    import logging
+    logging.disable(logging.CRITICAL)   # the library logs errors of its own; verdicts come from the oracles
     pid = args.pid.upper()
     seed = int(os.environ.get("VERIF_SEED", "0") or 0)
     sys.path.insert(0, VERIF)
